@@ -79,6 +79,7 @@ type Specs struct {
 	Ghosts    map[string]*GhostField
 	InlinePkg []string
 	GlobalInvs []*SpecFn
+	Confined   []*confinedSpec
 	Files     []string
 	NAssume   int
 }
@@ -86,7 +87,7 @@ type Specs struct {
 var clauseKw = map[string]bool{"requires": true, "ensures": true, "modifies": true, "invariant": true,
 	"decreases": true, "ghost": true, "property": true, "attr": true, "assume": true, "havoc": true, "axiom": true}
 
-var headRe = regexp.MustCompile(`^(func|functype|iface|extern|pred|fn|ghost|inlinepkg|opaque|modset|globalinv)\b`)
+var headRe = regexp.MustCompile(`^(func|functype|iface|extern|pred|fn|ghost|inlinepkg|opaque|modset|globalinv|confined)\b`)
 
 func loadSpecs(root string, pkgDirs map[string]string) (*Specs, error) {
 	sp := &Specs{Funcs: map[string]*Contract{}, Loops: map[string][]*Contract{}, Closures: map[string][]*Contract{},
@@ -159,6 +160,22 @@ func (sp *Specs) parseFile(pkgPath, file string) error {
 				rest = strings.TrimSpace(rest[len(kw):])
 			}
 			switch kw {
+			case "confined":
+				// confined Type.field writers f, g property Cxx
+				fs := strings.Fields(strings.ReplaceAll(rest, ",", " "))
+				if len(fs) < 3 || fs[1] != "writers" {
+					return fmt.Errorf("%s: bad confined declaration", where)
+				}
+				dot := strings.LastIndex(fs[0], ".")
+				cs := &confinedSpec{Pkg: pkgPath, Type: fs[0][:dot], Field: fs[0][dot+1:], Where: where}
+				i := 2
+				for ; i < len(fs) && fs[i] != "property"; i++ {
+					cs.Writers = append(cs.Writers, fs[i])
+				}
+				for i++; i < len(fs); i++ {
+					cs.Props = append(cs.Props, fs[i])
+				}
+				sp.Confined = append(sp.Confined, cs)
 			case "globalinv":
 				// globalinv <expr over package-level variables>: holds after package initialisation and is never broken
 				// (the variables it mentions may be written only by init; checked syntactically)
